@@ -190,6 +190,22 @@ def write_viewer_caches(home):
     write_viewer_dir(os.path.join(home, ".viewer_two"), {HA: (__import__("uuid").UUID(int=CACHE_ID_A.int), b)}, aligned8=True)
 
 
+_HOME = []
+
+
+def _viewer_home():
+    """The two viewers' cache directories, written once per process (removed when the process ends)."""
+    if not _HOME:
+        import atexit
+        import shutil
+        import tempfile
+        home = tempfile.mkdtemp(prefix="hvc14_")
+        atexit.register(shutil.rmtree, home, ignore_errors=True)
+        write_viewer_caches(home)
+        _HOME.append(home)
+    return _HOME[0]
+
+
 def compressed_update(handle, local, full, parent):
     key = ("C", handle, local, full, parent)
     if key not in _CACHE:
@@ -368,11 +384,9 @@ class World:
         if cfg == 2:
             # the viewers' caches are found under the user's home directory; region A's cache id arrives with its handshake
             import os
-            import tempfile
-            self.home = tempfile.mkdtemp(prefix="hvc14_")
+            self.home = _viewer_home()
             self.old_home = os.environ.get("HOME")
             os.environ["HOME"] = self.home
-            write_viewer_caches(self.home)
             self.load_viewer_cache()
         self.model = Model()
         self.futures = []      # [region, local, type name, future]
@@ -397,12 +411,10 @@ class World:
         finally:
             if self.home:
                 import os
-                import shutil
                 if self.old_home is None:
                     os.environ.pop("HOME", None)
                 else:
                     os.environ["HOME"] = self.old_home
-                shutil.rmtree(self.home, ignore_errors=True)
 
     def viol(self, mech, what, **extra):
         self.ok = False
